@@ -119,6 +119,10 @@ def _cases_for(tier, method, rng):
         ns = list(range(256)) + [0, 1, 127, 128, 255, 0, 1, 127, 128, 255]
     for i, n in enumerate(ns):
         cases.append(['sysexit', [flav[(i + rng.randrange(3)) % 3], n]])
+    # sys.exit(n) with n an instance of a subclass of int (IntEnum member, bool, ...)
+    for fl, n in [('intenum', 0), ('intenum', 3), ('intsub', 2), ('bool', 1), ('bool', 0)] + \
+            ([] if quick else [('intenum', 255), ('intsub', 0), ('intsub', 128), ('intenum', 1)]):
+        cases.append(['sysexit', [fl, n]])
     allsigs = SIGS_DESIGN + SIGS_EXTRA
     if quick:
         for s in SIGS_DESIGN + rng.sample(SIGS_EXTRA, 1):
